@@ -682,7 +682,8 @@ def gen_round2(rng, spec):
     """A second round for the same graph object (see C03): after the first serialisations, one of the prefixes they
     generated (ns1, ns2, …) or that the spec bound is re-bound to another namespace and a triple with a predicate in
     that namespace is added; then everything is serialised and parsed again.
-    -> {"pick": n, "ns": namespace, "local": name, "mode": "replace" | "override", "subj": term, "obj": term}
+    -> {"pick": n, "ns": namespace, "local": name, "mode": "replace" | "override" | "handle" (re-bind through a second
+        Graph object on the same store) | "store" (store.bind directly), "subj": term, "obj": term}
     (`pick` indexes the sorted candidate prefixes at run time; the caller decides what a candidate is).
     Also makes sure the graph has a predicate whose local name needs the strict (RDF/XML) split."""
     if rng.random() < 0.7:
@@ -692,7 +693,7 @@ def gen_round2(rng, spec):
             t = spec["triples"][-1]
             t[2] = L("".join(ch for ch in t[2][1] if xml10_ok(ch)))
     return {"pick": rng.randint(0, 5), "ns": rng.choice(OTHER_NAMESPACES), "local": rng.choice(["p", "q1", "Rel", "x_y"]),
-            "mode": rng.choice(["replace", "replace", "override"]),
+            "mode": rng.choice(["replace", "replace", "override", "handle", "handle", "store"]),
             "subj": gen_iri(rng), "obj": L(rng.choice(["other", "", "2"]))}
 
 
